@@ -70,6 +70,12 @@ def _run(rs, names_out):
             kw = dict(kw)
             fail = kw.pop("_fail", False)
             sol = kw.pop("_sol_vec_from_pit", False)
+            toggle = kw.pop("_toggle", None)       # (table, row position): out of service for this call only
+            if toggle is not None:
+                tcol = "opened" if toggle[0] == "valve" else "in_service"
+                tix = net[toggle[0]].index[toggle[1]]
+                told = net[toggle[0]].at[tix, tcol]
+                net[toggle[0]].at[tix, tcol] = False
             tag = ("@c%d" % ci if len(rs.pre_calls) > 1 else "@first") if rs.pre_tag is None else rs.pre_tag
             H.CTX.sym_tag, H.CTX.xtag = tag, tag
             H.CTX.force_fail = bool(fail)
@@ -82,6 +88,8 @@ def _run(rs, names_out):
             finally:
                 H.CTX.sym_tag, H.CTX.xtag = "", ""
                 H.CTX.force_fail = False
+                if toggle is not None:
+                    net[toggle[0]].at[tix, tcol] = told
         for tbl, col in saved.items():
             net[tbl]["mdot_kg_per_s"] = col
     n_pre = len(stubs.CTX.systems)
